@@ -152,7 +152,9 @@ func (x *Exec) isLocalOf(fn *ssa.Function, name string) bool {
 	for _, b := range fn.Blocks {
 		for _, in := range b.Instrs {
 			if d, ok := in.(*ssa.DebugRef); ok && d.Object() != nil && d.Object().Name() == name {
-				return true
+				if vr, isVar := d.Object().(*types.Var); isVar && !vr.IsField() {
+					return true
+				}
 			}
 		}
 	}
